@@ -15,6 +15,7 @@
 package tls
 
 import (
+	"bytes"
 	"crypto"
 	"crypto/dsa" //nolint:staticcheck
 	"crypto/ecdsa"
@@ -34,6 +35,14 @@ import (
 
 type dsaSig struct {
 	R, S *big.Int
+}
+
+// isExactSig reports whether der is the encoding of sig and nothing else: the
+// ASN.1 decoder tolerates further elements at the end of a SEQUENCE, which
+// would let anyone produce unlimited variants of a valid signature value.
+func isExactSig(sig dsaSig, der []byte) bool {
+	canonical, err := asn1.Marshal(sig)
+	return err == nil && bytes.Equal(canonical, der)
 }
 
 func generateHash(algo HashAlgorithm, data []byte) ([]byte, crypto.Hash, error) {
@@ -91,6 +100,9 @@ func VerifySignature(pubKey crypto.PublicKey, data []byte, sig DigitallySigned) 
 		if len(rest) != 0 {
 			log.Printf("Garbage following signature %q", rest)
 		}
+		if !isExactSig(dsaSig, sig.Signature[:len(sig.Signature)-len(rest)]) {
+			return errors.New("DSA signature is not a DER SEQUENCE of exactly two INTEGERs")
+		}
 		if dsaSig.R.Sign() <= 0 || dsaSig.S.Sign() <= 0 {
 			return errors.New("DSA signature contained zero or negative values")
 		}
@@ -114,6 +126,9 @@ func VerifySignature(pubKey crypto.PublicKey, data []byte, sig DigitallySigned) 
 		}
 		if len(rest) != 0 {
 			log.Printf("Garbage following signature %q", rest)
+		}
+		if !isExactSig(ecdsaSig, sig.Signature[:len(sig.Signature)-len(rest)]) {
+			return errors.New("ECDSA signature is not a DER SEQUENCE of exactly two INTEGERs")
 		}
 		if ecdsaSig.R.Sign() <= 0 || ecdsaSig.S.Sign() <= 0 {
 			return errors.New("ECDSA signature contained zero or negative values")
